@@ -536,6 +536,7 @@ class LoopMixin:
             cur = self.ops.segments(handle)
             rec.kind, rec.items = "derived", []
             rec.segs = cur + [Seg(seg.lid, seg.pidx, hi2, g, z3.And(seg.cond, cond), val)]
+            rec.write_log.append(("$segs", None))  # seen by an enclosing summarised loop: nested accumulation
         # ---- apply: element fields (lambda update at the level of g)
         for (lid, key), lst in field_writes.items():
             rec = st.lists[lid]
